@@ -39,10 +39,10 @@ Definition to_jones (x : sx) : jones Q2 := (to_q2 (nthx 0 x), to_q2 (nthx 1 x)).
 Definition to_pinput (x : sx) : pinput Q2 := map (fun md => map to_jones (to_list md)) (to_list x).
 
 (* tree -> [well-formed?, status (0 matrix, 1 numpy raises), dim, matrix] *)
-(* fx = false: the code as it is; fx = true: with the two one-line repairs (see known_findings.json) *)
-Definition pol_unitary_g (fx : bool) (c : pcomp Q2) : pol_result Q2 := if fx then pol_unitary_fixed c else pol_unitary c.
+(* fx = true: the code as it is now; fx = false: /repo before the fix commits e38f1486, 53c82d36, 19d38de0 (historical) *)
+Definition pol_unitary_g (fx : bool) (c : pcomp Q2) : pol_result Q2 := if fx then pol_unitary c else pol_unitary_old c.
 Definition convert_g (fx : bool) (inp : pinput Q2) : conv_result Q2 :=
-  if fx then convert_fixed (R:=Q2) q2_eqb inp else convert (R:=Q2) q2_eqb inp.
+  if fx then convert (R:=Q2) q2_eqb inp else convert_old (R:=Q2) q2_eqb inp.
 Definition x_pol_unitary_g (fx : bool) (x : sx) : sx :=
   let c := to_tree x in
   match pol_unitary_g fx c with
@@ -90,7 +90,7 @@ Definition x_pol_probs_g (fx : bool) (x : sx) : sx :=
       | ConvOk s _ =>
           if negb (d =? 2 * m)%nat then L [I 4] else
           let ts := allstates (2 * m) (total s) in
-          let amps := impl_amps (R:=Q2) q2_eqb U m inp ts in
+          let amps := if fx then impl_amps (R:=Q2) q2_eqb U m inp ts else impl_amps_old (R:=Q2) q2_eqb U m inp ts in
           let rows := combine ts amps in
           let d := dmerge2 (map (fun ta => (merge_sub (fst ta), prob2 (snd ta) (norm2 s (fst ta)))) rows) in
           L [I 0; of_dist2 d;
@@ -124,7 +124,7 @@ Definition x_labels (_ : sx) : sx :=
                    L [of_nat_sx (fst ab); of_nat_sx (snd ab); L [of_q2 (fst j); of_q2 (snd j)]; L [of_q2 (fst s); of_q2 (snd s)]])
          all_labels).
 
-Definition x_pol_unitary := x_pol_unitary_g false.
-Definition x_pol_convert := x_pol_convert_g false.
-Definition x_pol_probs := x_pol_probs_g false.
-Definition x_pol_spec := x_pol_spec_g false.
+Definition x_pol_unitary := x_pol_unitary_g true.
+Definition x_pol_convert := x_pol_convert_g true.
+Definition x_pol_probs := x_pol_probs_g true.
+Definition x_pol_spec := x_pol_spec_g true.
